@@ -533,6 +533,26 @@ def run_contexts(tier, seed, fails, tags):
                                             f"`{' '.join(body[tgt][max(0, k - 6):k + 6])}` vs cpu `{' '.join(body['cpu'][max(0, k - 6):k + 6])}`", ctx))
             if any(ph in rec[tgt] for ph in PLACEHOLDERS):
                 fails.append(common.Failure("oracle", "C15:placeholder-left", f"placeholder left in the {tgt} context's program text ({rec['type'][:120]})", ctx))
+        # the HEADERS the GPU contexts put in front (their `typedef` tables for the fixed-width integer names): in the target's data
+        # model (OpenCL C: char 8, short 16, int 32, long 64 bits; CUDA / LP64: long long 64) every `intN_t` / `uintN_t` is an integer
+        # type of exactly N bits and that signedness - otherwise the unchanged accessor text addresses elements of another width than
+        # the cpu form ("differing only in target qualifiers")
+        widths = {"char": 8, "short": 16, "int": 32, "long": 64, "long long": 64}
+        for tgt in ("opencl", "cuda"):
+            head = rec[tgt].split(mark, 1)[0]
+            seen_t = {}
+            for m in re.finditer(r"typedef\s+((?:(?:un)?signed\s+)?(?:long\s+long|long|int|short|char))\s+(u?)int(8|16|32|64)_t\s*;", head):
+                base, uns, bits = m.group(1).split(), m.group(2) == "u", int(m.group(3))
+                is_uns = base[0] == "unsigned"
+                core = " ".join(w for w in base if w not in ("signed", "unsigned"))
+                seen_t[(uns, bits)] = True
+                if widths.get(core) != bits or is_uns != uns:
+                    fails.append(common.Failure("oracle", "C15:header-integer-width", f"{tgt} header: `{m.group(0)}` makes {'u' if uns else ''}int{bits}_t a "
+                                                f"{'unsigned ' if is_uns else ''}{core} ({widths.get(core)} bits in the {tgt} data model)", ctx))
+            if head.count("typedef") and len(seen_t) != 8:
+                fails.append(common.Failure("oracle", "C15:header-integer-width", f"{tgt} header defines {len(seen_t)} of the 8 fixed-width integer names "
+                                            f"(unparsed or missing typedef lines)", ctx))
+            tags[f"contexts.header-typedefs.{tgt}"] += len(seen_t)
         # every pointer type spelled out in the text the OpenCL context hands over carries __global - also when the cpu context
         # generated code for the same classes earlier in the process
         o = rec["opencl"].split(mark, 1)[1]
